@@ -22,7 +22,8 @@ current side is a direct call, a call to a function owned by the other side take
   `Connection._async_request`  `_box((proxy, args, kwargs))`, `_send(MSG_REQUEST, seq, (handler, boxed))`
   `brine.dump` / `brine.load`  (the model of C04: `Rpyc.Brine.dump/load`)
   `Connection._dispatch`       `msg, seq, args = load(data)`; `_dispatch_request`: `handler, args = raw_args`,
-                               `_unbox(args)`, `self._HANDLERS[handler](self, *args)`
+                               `_unbox(args)` (two passes: `_resolve_local_refs` looks up every LOCAL_REF of the
+                               package first, then proxies are created), `self._HANDLERS[handler](self, *args)`
   `Connection._handle_call`    `obj(*args, **dict(kwargs))`
   reply                        `_send(MSG_REPLY, seq, _box(res))`, or — the handler raised, or the result
                                cannot be serialized — `_send(MSG_EXCEPTION, seq, vinegar.dump(...))`
@@ -150,43 +151,88 @@ def lentL (s : Side) : List PyVal → List Nat
   | x :: xs => lent s x ++ lentL s xs
 end
 
+/-- a package after `_resolve_local_refs`: every LOCAL_REF replaced by the object it names, TUPLE packages rebuilt
+member by member, every other package (VALUE, REMOTE_REF, an unknown label) returned as it came -/
+inductive Pkg where
+  | raw (v : Val)
+  | tup (ps : List Pkg)
+  | resolved (x : PyVal)
+  deriving Repr, Inhabited
+
 mutual
-/-- `_unbox` at side `me` whose `_local_objects` holds the keys `tbl`.
-`label, value = package` (ValueError for a tuple of another length, TypeError for a non-iterable);
-LOCAL_REF: `self._local_objects[value]` (KeyError); REMOTE_REF: a proxy of the peer's object;
-anything else: `ValueError("invalid label")`. -/
-def unbox (me : Side) (tbl : List Nat) : Val → Except Err PyVal
+/-- `_resolve_local_refs` at side `me` whose `_local_objects` holds the keys `tbl`: the first pass of `_unbox`.
+No proxy is created here, so nothing is sent and no other message is served while the local references of the
+package are looked up (`self._local_objects[value]`: KeyError).
+`label, value = package`: ValueError for a tuple of another length, TypeError for a non-iterable. -/
+def resolveLocalRefs (me : Side) (tbl : List Nat) : Val → Except Err Pkg
   | .tuple [l, v] =>
     match labelOf l with
-    | some .value => .ok (.imm v)
     | some .tuple =>
       match v with
       | .tuple items =>
-        match unboxL me tbl items with
-        | .ok xs => .ok (mkTup xs)
+        match resolveLocalRefsL me tbl items with
+        | .ok ps => .ok (.tup ps)
         | .error e => .error e
       | _ => .error .typeError
     | some .localRef =>
       match unIdPack v with
-      | some k => if tbl.contains k then .ok (.ref me k) else .error .keyError
+      | some k => if tbl.contains k then .ok (.resolved (.ref me k)) else .error .keyError
       | none => .error .keyError
+    | _ => .ok (.raw (.tuple [l, v]))
+  | .tuple _ => .error .valueError
+  | _ => .error .typeError
+def resolveLocalRefsL (me : Side) (tbl : List Nat) : List Val → Except Err (List Pkg)
+  | [] => .ok []
+  | x :: xs =>
+    match resolveLocalRefs me tbl x with
+    | .error e => .error e
+    | .ok y =>
+      match resolveLocalRefsL me tbl xs with
+      | .error e => .error e
+      | .ok ys => .ok (y :: ys)
+end
+
+/-- the second pass on a package that was returned as it came: VALUE → the value; REMOTE_REF → a proxy of the peer's
+object; anything else: `ValueError("invalid label")` (TUPLE and LOCAL_REF cannot come here: the first pass rebuilt /
+replaced them) -/
+def unboxRaw (me : Side) : Val → Except Err PyVal
+  | .tuple [l, v] =>
+    match labelOf l with
+    | some .value => .ok (.imm v)
     | some .remoteRef =>
       match unIdPack v with
       | some k => .ok (.ref me.other k)
       | none => .error .typeError
+    | some .tuple => .error .notModelled
+    | some .localRef => .error .notModelled
     | none => .error .valueError
-  | .tuple _ => .error .valueError
-  | _ => .error .typeError
-def unboxL (me : Side) (tbl : List Nat) : List Val → Except Err (List PyVal)
+  | _ => .error .notModelled
+
+mutual
+/-- the second pass of `_unbox`: values, the tuples, and proxies for the peer's objects -/
+def unboxPkg (me : Side) : Pkg → Except Err PyVal
+  | .resolved x => .ok x
+  | .tup ps =>
+    match unboxPkgL me ps with
+    | .ok xs => .ok (mkTup xs)
+    | .error e => .error e
+  | .raw v => unboxRaw me v
+def unboxPkgL (me : Side) : List Pkg → Except Err (List PyVal)
   | [] => .ok []
-  | x :: xs =>
-    match unbox me tbl x with
+  | p :: ps =>
+    match unboxPkg me p with
     | .error e => .error e
     | .ok y =>
-      match unboxL me tbl xs with
+      match unboxPkgL me ps with
       | .error e => .error e
       | .ok ys => .ok (y :: ys)
 end
+
+/-- `_unbox`: first every local reference of the package is resolved, then proxies are created -/
+def unbox (me : Side) (tbl : List Nat) (v : Val) : Except Err PyVal :=
+  match resolveLocalRefs me tbl v with
+  | .error e => .error e
+  | .ok p => unboxPkg me p
 
 /-! ### exceptions -/
 
